@@ -154,6 +154,12 @@ def gen_variant(r, trig):
             target = host.split(':')[0] + ':443'
             headers = []
             wire_body = b''
+        elif form == 4 and trig in ('te_cl', 'multi_cl_same', 'multi_cl_diff', 'chunked_http10', 'bad_cl', 'bad_te'):
+            # framing ambiguities are flagged whatever the method is: a CONNECT (whose body the parser never reads - a refused
+            # tunnel is where the ambiguity bites) keeps the indicator and the transfer coding; the body itself is not judged
+            method = 'CONNECT'
+            target = host.split(':')[0] + ':443'
+            exp['connect'] = True
     exp['target_form'] = 'connect' if method == 'CONNECT' else ('absolute' if target.startswith('http://') else 'origin')
     if target.startswith('http://') and r.chance(0.3):
         # scheme names are case-insensitive and need not be http: the authority is the target's host whatever the scheme is spelt like
@@ -232,7 +238,7 @@ def shard(args):
             if exp['chunked']:
                 if t['req_tc'] != 3:
                     errs.append(('not_chunked:' + exp['trigger'], 'request_transfer_coding %d, chunked expected' % t['req_tc']))
-                elif t['req_body'].get('d') != exp['body'].decode('latin-1'):
+                elif not exp.get('connect') and t['req_body'].get('d') != exp['body'].decode('latin-1'):
                     errs.append(('chunked_body:' + exp['trigger'], 'body %r, chunk-decoded %r expected' % (t['req_body'].get('d'), exp['body'])))
         for pv in d.get('viol', []):
             out['monitor'].append((pv[0], pv[1], pv[2]))
